@@ -825,6 +825,13 @@ func (p *parser) unary() (Expr, error) {
 		}
 		return &EUn{"-", x}, nil
 	}
+	if p.eat("*") {
+		x, err := p.unary()
+		if err != nil {
+			return nil, err
+		}
+		return &EUn{"*", x}, nil
+	}
 	return p.postfix()
 }
 
